@@ -146,6 +146,8 @@ pub static SRC_CALLS: AtomicUsize = AtomicUsize::new(0);
 pub static SRC_CRASH: AtomicUsize = AtomicUsize::new(usize::MAX);
 /// a source that is not fused: this call of next() (0-based) returns None although elements may remain
 pub static SRC_GAP: AtomicUsize = AtomicUsize::new(usize::MAX);
+/// an exact size hint that is not truthful: this is added to both bounds of the wrapped iterator's exact hint
+pub static SRC_HINT_LIE: std::sync::atomic::AtomicIsize = std::sync::atomic::AtomicIsize::new(0);
 /// overlapping executions of the wrapped next()
 pub static SRC_INSIDE: AtomicUsize = AtomicUsize::new(0);
 pub static SRC_OVERLAP: AtomicUsize = AtomicUsize::new(0);
@@ -196,7 +198,11 @@ where
         }
         let (lo, hi) = self.inner.size_hint();
         match self.hint {
-            0 => (lo, hi),
+            0 => {
+                let d = SRC_HINT_LIE.load(Ordering::SeqCst);
+                let f = |x: usize| if d >= 0 { x.saturating_add(d as usize) } else { x.saturating_sub(d.unsigned_abs()) };
+                (f(lo), hi.map(f))
+            }
             1 => (0, hi.map(|h| h + 1)),
             _ => (0, None),
         }
